@@ -143,6 +143,44 @@ def rate_test(ctx, rate, ncalls, seed):
                  f"rate {rate}: {lg.n} of {ncalls} calls traced, acceptance interval [{lo}, {hi}] for p=1/{rate}", raise_=False)
 
 
+_MANY = {}
+
+
+def many_functions(n):
+    """n distinct functions (distinct code objects), each resolvable through a module global"""
+    if n not in _MANY:
+        import types
+        mod = types.ModuleType("mtv_many")
+        src = "".join(f"def fn_{i}(x):\n    return (x, {i})\n" for i in range(n))
+        exec(compile(src, "/mtv_many_functions.py", "exec"), mod.__dict__)
+        sys.modules["mtv_many"] = mod
+        _MANY[n] = [mod.__dict__[f"fn_{i}"] for i in range(n)]
+    return _MANY[n]
+
+
+def rate_test_many(ctx, rate, nfuncs, sessions, seed):
+    """about one call in N also when the calls are spread over many functions and many short tracing sessions"""
+    fns = many_functions(nfuncs)
+    codes = {f.__code__ for f in fns}
+    random.seed(seed)
+    total = 0
+    for _ in range(sessions):
+        lg = Count()
+        with trace_calls(lg, 0, lambda c: c in codes, rate):
+            for f in fns:
+                f(1)
+        total += lg.n
+    ncalls = nfuncs * sessions
+    spec = ["RATEMANY", rate, nfuncs, sessions, seed]
+    ctx.case(spec, True, ["rate-workload-many-functions:%s" % rate])
+    lo, hi = interval(ncalls, 1.0 / rate)
+    ctx.extra.setdefault("rate_intervals", [])
+    ctx.extra["rate_intervals"].append({"rate": rate, "calls": ncalls, "traced": total, "accept": [lo, hi], "functions": nfuncs, "sessions": sessions})
+    if not lo <= total <= hi:
+        ctx.fail("C18/traced-fraction-outside-binomial-bounds", spec,
+                 f"rate {rate}: {total} of {ncalls} calls traced ({nfuncs} functions x {sessions} sessions), acceptance interval [{lo}, {hi}]", raise_=False)
+
+
 def run_case(ctx, prog, k, rate, seed, sc):
     res = tracerun.run_program(prog, sc, k=k, sample_rate=rate, rng_seed=seed)
     R = res.R
@@ -176,6 +214,8 @@ def shard(ctx):
     for i, (r, s) in enumerate(plan):
         if i % ctx.nshards == ctx.shard:
             rate_test(ctx, r, n if r != 100 else n, ctx.seed * 1000 + s)
+            if r not in (None, 1):
+                rate_test_many(ctx, r, 400, 25 if q else 100, ctx.seed * 1000 + s + 7)
 
 
 def run(ctx):
@@ -185,6 +225,8 @@ def run(ctx):
 def replay(ctx, case):
     if case[0] == "RATE":
         return rate_test(ctx, case[1], case[2], case[3])
+    if case[0] == "RATEMANY":
+        return rate_test_many(ctx, case[1], case[2], case[3], case[4])
     sc = tracerun.Scratch("c18-")
     try:
         run_case(ctx, case[0], case[1], case[2], case[3], sc)
